@@ -286,3 +286,102 @@ ASSUMED = ["bisect.bisect, sorted, filter, max, min run as the real CPython code
            "|view| == sum of range sizes uses that canonical ranges are pairwise disjoint (finite-set arithmetic, T5)"]
 NOT_COVERED = ["operands with more ranges than the stated shape bound (the loops of intersection / difference / merge_overlapping_intervals "
                "are not cut at invariants in this revision)", "__iter__ (enumeration of every member)"]
+
+
+# ================= deductive part: ranges of ANY length (pair-sequence proxy over arrays) =====================
+from pyvc.engine import Loop
+from pyvc import models as MD
+from pyvc.sym import as_z3_int, mk
+
+
+def _canonical_axioms(ps):
+    a, b = z3.Ints("cn!a cn!b")
+    return [z3.ForAll([a], z3.Implies(z3.And(a >= 0, a < ps.n), z3.Select(ps.lo, a) <= z3.Select(ps.hi, a))),
+            z3.ForAll([a, b], z3.Implies(z3.And(a >= 0, a < b, b < ps.n), z3.Select(ps.hi, a) + 1 < z3.Select(ps.lo, b)))]
+
+
+def _setup_bisect(g):
+    import ppci.utils.integer_set as m
+    old = m.bisect
+    m.bisect = MD.bisect_proxy
+
+    def undo():
+        m.bisect = old
+    return undo
+
+
+def _mk_unb(c, g):
+    from ppci.utils.integer_set import IntegerSet
+    s = IntegerSet()
+    ps = MD.SymPairSeq("R")
+    s.ranges = ps
+    x = make_value("int", "x", c)
+    return {"args": [s], "env": {"S": s, "ps": ps, "x": x}, "inputs": {"x": x}}
+
+
+def _unb_replay(g, v):
+    from ppci.utils.integer_set import IntegerSet
+    s = IntegerSet(*[tuple(r) for r in v.get("ranges", [])])
+    return {"args": [s], "env": {"S": s, "ps": None, "x": v["x"], "concrete": list(s.ranges)}}
+
+
+def _unb_samples(g, rnd):
+    out = []
+    for n in (0, 1, 2, 3, 4, 5, 7):
+        rs = []
+        cur = rnd.randrange(-5, 5)
+        for _ in range(n):
+            lo = cur + rnd.choice([2, 3, 5])
+            hi = lo + rnd.choice([0, 0, 1, 4])
+            rs.append([lo, hi])
+            cur = hi
+        for x in ([r[0] for r in rs] + [r[1] for r in rs] + [r[1] + 1 for r in rs] + [r[0] - 1 for r in rs] + [0])[:12]:
+            out.append({"ranges": rs, "x": x})
+    return out
+
+
+def _contains_post(e):
+    if e.ps is None:
+        want = any(lo <= e.x <= hi for lo, hi in e.concrete)
+        return [("contains(x) <=> x lies in one of the ranges", bool(e.result) == want)]
+    ps = e.ps
+    x = as_z3_int(e.x)
+    j = z3.Int("cv!j")
+    j0 = z3.Int(ctx().fresh_name("j0"))
+    exists = z3.Exists([j], z3.And(j >= 0, j < ps.n, z3.Select(ps.lo, j) <= x, x <= z3.Select(ps.hi, j)))
+    at_j0 = z3.And(j0 >= 0, j0 < ps.n, z3.Select(ps.lo, j0) <= x, x <= z3.Select(ps.hi, j0))
+    return [("contains(x) => x lies in some range", implies(e.result, mkb(exists))),
+            ("x lies in range j0 (arbitrary j0) => contains(x)", implies(mkb(at_j0), e.result))]
+
+
+for _t in ("contains", "__contains__"):
+    CONTRACTS.append(Contract(
+        "%s:IntegerSet.%s" % (M, _t), "C33", label="%s:IntegerSet.%s (ranges of any length)" % (M, _t), modules=[M], setup=_setup_bisect,
+        make=_mk_unb, replay_args=_unb_replay, sample_inputs=_unb_samples, call=lambda fn, env, a, k: fn(env.S, env.x),
+        requires=lambda e: _canonical_axioms(e.ps) if e.ps is not None else [],
+        ensures=_contains_post))
+
+# cardinality: loop invariant over the prefix sum (recursive spec function over the arrays)
+_CS = z3.RecFunction("card_prefix", z3.ArraySort(z3.IntSort(), z3.IntSort()), z3.ArraySort(z3.IntSort(), z3.IntSort()), z3.IntSort(), z3.IntSort())
+_A, _B, _K = z3.Array("cs!lo", z3.IntSort(), z3.IntSort()), z3.Array("cs!hi", z3.IntSort(), z3.IntSort()), z3.Int("cs!k")
+z3.RecAddDefinition(_CS, [_A, _B, _K], z3.If(_K <= 0, z3.IntVal(0), _CS(_A, _B, _K - 1) + z3.Select(_B, _K - 1) - z3.Select(_A, _K - 1) + 1))
+
+
+def _card_post(e):
+    if e.ps is None:
+        return [("cardinality == sum of (hi - lo + 1)", e.result == sum(hi - lo + 1 for lo, hi in e.concrete))]
+    return [("cardinality == sum over all ranges of (hi - lo + 1)", e.result == mk(_CS(e.ps.lo, e.ps.hi, e.ps.n)))]
+
+
+for _t in ("cardinality",):
+    CONTRACTS.append(Contract(
+        "%s:IntegerSet.%s" % (M, _t), "C33", label="%s:IntegerSet.%s (ranges of any length)" % (M, _t), modules=[M],
+        make=_mk_unb, replay_args=_unb_replay, sample_inputs=_unb_samples, call=lambda fn, env, a, k: fn(env.S),
+        requires=lambda e: _canonical_axioms(e.ps) if e.ps is not None else [],
+        ensures=_card_post,
+        loops={0: Loop(havoc={"total": "int", "it0__": ("object", MD.havoc_pair_iter)},
+                       invariant=lambda e: [("total == sum of the sizes of the ranges visited so far",
+                                             e.total == mk(_CS(e.it0__.seq.lo, e.it0__.seq.hi, as_z3_int(e.it0__.pos))))],
+                       decreases=lambda e: mk(e.it0__.seq.n - as_z3_int(e.it0__.pos)))} if _t == "cardinality" else None))
+
+LEVEL = "proof"
